@@ -870,6 +870,7 @@ func (r *Reader) FetchMessage(ctx context.Context) (Message, error) {
 			}
 
 			if m.version >= version {
+				if verifOn { verifEvent("RF.Accept", r, r.config.Topic, version, m.version, m.message.Offset, m.error != nil) }
 				r.mutex.Lock()
 
 				switch {
@@ -891,6 +892,7 @@ func (r *Reader) FetchMessage(ctx context.Context) (Message, error) {
 
 				return m.message, m.error
 			}
+			if verifOn { verifEvent("RF.Drop", r, r.config.Topic, version, m.version) }
 		}
 	}
 }
@@ -1061,6 +1063,7 @@ func (r *Reader) SetOffset(offset int64) error {
 
 	var err error
 	r.mutex.Lock()
+	if verifOn { verifEvent("RF.SetOffset", r, r.config.Topic, offset, r.offset, r.version, r.closed) }
 
 	if r.closed {
 		err = io.ErrClosedPipe
@@ -1227,6 +1230,7 @@ func (r *Reader) start(offsetsByPartition map[topicPartition]int64) {
 
 	r.join.Add(len(offsetsByPartition))
 	for key, offset := range offsetsByPartition {
+		if verifOn { verifEvent("RF.Start", r, key.topic, version, offset) }
 		go func(ctx context.Context, key topicPartition, offset int64, join *sync.WaitGroup) {
 			defer join.Done()
 
@@ -1602,6 +1606,7 @@ func (r *reader) readOffsets(conn *Conn) (first, last int64, err error) {
 func (r *reader) sendMessage(ctx context.Context, msg Message, watermark int64) error {
 	select {
 	case r.msgs <- readerMessage{version: r.version, message: msg, watermark: watermark}:
+		if verifOn { verifEvent("RF.Enq", r, r.topic, r.version, msg.Offset) }
 		return nil
 	case <-ctx.Done():
 		return ctx.Err()
